@@ -38,6 +38,9 @@ pub enum Step {
     Deliver { delivered: Vec<u8>, expect: DeliverExpect, class: String, site: String, desc: String },
     /// the delivered payload is offered to the decoder of a nested public type
     DeliverNested { ty: String, payload: Vec<u8>, desc: String },
+    /// a fault-free message whose over-long text members must come back as the documented lossy result
+    /// (C04: "... yield an error or the documented lossy result, never a crash"): (member, text sent)
+    LossyCheck { delivered: Vec<u8>, sent: Vec<(String, Vec<u8>)> },
     /// the authenticator application builds authenticator data (C07)
     AuthData(crate::c07::AuthDataSpec),
     /// a CTAP1 response is appended to a caller-owned, pre-filled buffer (C09)
@@ -94,6 +97,12 @@ impl Step {
                 ("len", json::i(payload.len())),
                 ("payload", s(json::hex(payload))),
             ]),
+            Step::LossyCheck { delivered, sent } => obj(vec![
+                ("op", s("lossy_check")),
+                ("len", json::i(delivered.len())),
+                ("delivered", s(json::hex(delivered))),
+                ("sent", J::Arr(sent.iter().map(|(k, v)| obj(vec![("member", s(k.clone())), ("text_hex", s(json::hex(v)))])).collect())),
+            ]),
             Step::AuthData(x) => x.to_json(),
             Step::U2fRespond(x) => x.to_json(),
             Step::Dispatch(x) => x.to_json(),
@@ -115,6 +124,10 @@ impl Step {
                 ty: j.get("type")?.str()?.to_string(),
                 payload: json::unhex(j.get("payload")?.str()?)?,
                 desc: j.get("desc")?.str()?.to_string(),
+            },
+            "lossy_check" => Step::LossyCheck {
+                delivered: json::unhex(j.get("delivered")?.str()?)?,
+                sent: j.get("sent")?.arr()?.iter().filter_map(|e| Some((e.get("member")?.str()?.to_string(), json::unhex(e.get("text_hex")?.str()?)?))).collect(),
             },
             "auth_data" => Step::AuthData(crate::c07::AuthDataSpec::from_json(j)?),
             "u2f_respond" => Step::U2fRespond(crate::c09::U2fSpec::from_json(j)?),
@@ -403,6 +416,46 @@ pub fn exec(dev: &mut Device, step: &Step, prop: Prop, log: &mut Log) -> Option<
                     finding("panic", format!("decoding as {} panicked: {} [{}]", ty, m, desc))
                 }
             }
+        }
+        Step::LossyCheck { delivered, sent } => {
+            let r = real::lossy_members(delivered);
+            let got = match r {
+                Err(p) => {
+                    log.event("lossy_check -> PANIC");
+                    return finding("panic", format!("decoding panicked: {}", p));
+                }
+                Ok(None) => {
+                    log.event("lossy_check -> not accepted");
+                    dev.last_outcome = "lossy-skip".into();
+                    return None;
+                }
+                Ok(Some(g)) => g,
+            };
+            log.event(&format!("lossy_check members={}", got.len()));
+            dev.last_outcome = "lossy-ok".into();
+            for (member, text) in sent {
+                let Some((_, dec)) = got.iter().find(|(m, _)| m == member) else { continue };
+                let is_icon = member.ends_with("icon");
+                let cap = if is_icon { 128 } else { 64 };
+                if text.len() <= cap {
+                    continue; // fidelity of values that fit is not this property's statement
+                }
+                dev.last_outcome = "lossy-overlong".into();
+                match dec {
+                    None if is_icon => {}
+                    None => return finding("lossy_result", format!("{} of {} bytes was sent; the documented lossy result is its truncation, but the member is absent", member, text.len())),
+                    Some(_) if is_icon => return finding("lossy_result", format!("{} of {} bytes was sent; the documented lossy result is that it is dropped, but a value is present", member, text.len())),
+                    Some(d) => {
+                        if d.len() > cap || !text.starts_with(d) || std::str::from_utf8(d).is_err() {
+                            return finding(
+                                "lossy_result",
+                                format!("{} of {} bytes was sent; the decoded value ({} bytes: {}) is not a well-formed prefix of at most {} bytes of it", member, text.len(), d.len(), json::hex(&d[..d.len().min(80)]), cap),
+                            );
+                        }
+                    }
+                }
+            }
+            None
         }
         Step::AuthData(x) => crate::c07::exec(dev, x, log),
         Step::U2fRespond(x) => crate::c09::exec(dev, x, log),
